@@ -4,7 +4,7 @@ import QuillModel.Drivers.Util
 Correspondence driver for C13. Input: the lines printed by `harness/h3_time.cpp`
 
     case <id> <G|L> <zone> <class> <pattern-hex|->
-    ctor => ok | err X | err excl
+    ctor => ok | err X | err excl | err once
     t <ns> <gmtoff> <isdst> <abbr-hex> => <rendered-hex|->
 
 (`gmtoff isdst abbr` is what `localtime_r` said about that instant in the case's zone: the offset table the
@@ -52,6 +52,7 @@ def ctorText : Except InitError TF → String
   | .ok _ => "ok"
   | .error .percentX => "err X"
   | .error .exclusive => "err excl"
+  | .error .repeated => "err once"
 
 structure Totals where
   cases : Nat := 0
@@ -73,7 +74,7 @@ def fold (c : Ctx) (t : Totals) : Totals :=
            same := t.same + c.same, static := t.static + c.static,
            refdiffUnsupported := t.refdiffUnsupported + (if c.applies then 0 else c.refdiff) }
 
-def runTrace (P : Nat) : IO UInt32 := do
+def runTrace (P : Nat) (rr : Bool) : IO UInt32 := do
   let stdin ← IO.getStdin
   let lines ← Drv.readLines stdin
   let mut ctx : Option Ctx := none
@@ -100,7 +101,7 @@ def runTrace (P : Nat) : IO UInt32 := do
         let toks := lex pat
         let sup := supportedToks toks
         let app := sup && !hasX toks && fracCount toks ≤ 1
-        let tf := match TF.init pat loc with
+        let tf := match TF.init rr pat loc with
           | .ok f => some f
           | .error _ => none
         ctx := some { id := id, cls := cls, loc := loc, pat := pat, tf := tf, supported := sup, applies := app }
@@ -111,7 +112,7 @@ def runTrace (P : Nat) : IO UInt32 := do
       | none => IO.println s!"NO-CASE line {lineNo}"; t := { t with problems := t.problems + 1 }
       | some c =>
         if c.cls == "ext" then continue
-        let m := ctorText (TF.init c.pat c.loc)
+        let m := ctorText (TF.init rr c.pat c.loc)
         t := { t with lines := t.lines + 1, rejected := t.rejected + (if m == "ok" then 0 else 1) }
         if m ≠ obsS then
           IO.println s!"MISMATCH case={c.id} line={lineNo}: ctor impl=[{obsS}] model=[{m}]"
@@ -120,8 +121,13 @@ def runTrace (P : Nat) : IO UInt32 := do
         -- the rejection half of the theorem, on the model
         let toks := lex c.pat
         if c.supported then
-          let want := if kindCount toks ≥ 2 then "err excl" else if hasX toks then "err X" else "ok"
-          if m ≠ want then
+          -- what `C13_rejects` / `C13_core` say about the constructor
+          let agrees :=
+            if kindCount toks ≥ 2 then m == "err excl"
+            else if fracCount toks ≥ 2 then (if rr then (m == "err once" || m == "err X") else true)
+            else if hasX toks then m == "err X" else m == "ok"
+          let want := if kindCount toks ≥ 2 then "err excl" else if fracCount toks ≥ 2 then "err once|err X" else if hasX toks then "err X" else "ok"
+          if !agrees then
             IO.println s!"MODEL-REF-DIFF case={c.id} line={lineNo}: ctor model=[{m}] theorem=[{want}]"
             t := { t with problems := t.problems + 1 }
     | ["t", nsS, offS, dstS, abbrS] =>
@@ -182,9 +188,9 @@ def runTrace (P : Nat) : IO UInt32 := do
   IO.println s!"DONE cases={t.cases} lines={t.lines} mismatches={t.mismatches} problems={t.problems} supported_cases={t.supportedCases} theorem_applies_cases={t.appliesCases} rejected={t.rejected} recalc={t.recalc} patch={t.patch} fallback={t.fallback} same={t.same} static={t.static} refdiff_outside_theorem={t.refdiffUnsupported}"
   return (if t.mismatches + t.problems == 0 then 0 else 1)
 
-/-- `driver time trace <P>`: `P` = the local-time recalculation period extracted from the header -/
+/-- `driver time trace <P> <rr>`: the local-time recalculation period and the repeated-specifier flag extracted from the headers -/
 def main : List String → IO UInt32
-  | ["trace", p] => runTrace (Drv.nat! p)
-  | _ => do IO.println "usage: driver time trace <local-recalculation-period>"; return 2
+  | ["trace", p, rr] => runTrace (Drv.nat! p) (rr == "1")
+  | _ => do IO.println "usage: driver time trace <local-recalculation-period> <rejects-repeated-specifier 0|1>"; return 2
 
 end Drv.Time
